@@ -40,14 +40,17 @@ const CF_KINDS: &[&str] = &[
 fn generate(seed: u64, tier: Tier) -> Value {
     let mut r = Rng::new(seed);
     let n = match tier {
-        Tier::Quick => r.range(2, 40),
+        Tier::Quick => if r.chance(1, 12) { r.range(101, 180) } else { r.range(2, 40) },
         Tier::Thorough => {
             if r.chance(1, 10) { r.range(100, 600) } else { r.range(2, 60) }
         }
     };
     let n_anchor = if r.chance(1, 4) { 0 } else { r.range(1, 4.min(n)) };
     let anchors: Vec<u64> = (0..n_anchor).map(|_| r.below(n)).collect();
-    let tasks = r.range(2, 5);
+    // one world in five is single-tasked without background recomputation: there the order of
+    // reports is fixed, so an engine that skips the intermediate recomputations sees the same history
+    let single = r.chance(1, 5);
+    let tasks = if single { 1 } else { r.range(2, 5) };
     let nops = if r.chance(1, 20) { 0 } else { r.range(5, if n > 100 { 400 } else { 120 }) };
     let mut ops = Vec::new();
     for _ in 0..nops {
@@ -95,7 +98,7 @@ fn generate(seed: u64, tier: Tier) -> Value {
     let cf_from = if r.chance(1, 3) { cf_node } else { pick_id(&mut r) };
     let cf = json!({"at": r.below(nops + 1), "node": cf_node, "kind": cf_kind, "from": cf_from});
     json!({"property": "C10", "seed": seed, "n": n, "anchors": anchors, "tasks": tasks,
-           "background": r.chance(1, 2), "ops": ops, "cf": cf})
+           "background": !single && r.chance(1, 2), "single": single, "ops": ops, "cf": cf})
 }
 
 fn shrink(sc: &Value) -> Vec<Value> {
@@ -236,6 +239,12 @@ async fn apply(engine: &Arc<EigenTrustEngine>, op: &Value, n: u64, out: &std::ce
 
 /// Run one engine through the scenario (optionally with one extra op inserted at `extra.0`).
 pub fn run_world(sc: &Value, extra: Option<(usize, Value)>, log: bool) -> WorldOut {
+    run_world_opt(sc, extra, log, false)
+}
+
+/// `skip_computes`: intermediate `compute` operations keep their place in the schedule (same
+/// delays and yields) but do not call the engine; only the final recomputation happens.
+pub fn run_world_opt(sc: &Value, extra: Option<(usize, Value)>, log: bool, skip_computes: bool) -> WorldOut {
     let seed = sc["seed"].as_u64().unwrap_or(0);
     let n = sc["n"].as_u64().unwrap_or(2);
     let tasks = sc["tasks"].as_u64().unwrap_or(1).max(1);
@@ -277,6 +286,7 @@ pub fn run_world(sc: &Value, extra: Option<(usize, Value)>, log: bool) -> WorldO
                     if log {
                         ev!("op {idx} t{t} {}", op["op"].as_str().unwrap_or("?"));
                     }
+                    if skip_computes && op["op"] == "compute" { continue; }
                     apply(&engine, &op, n, &out, log).await;
                 }
             }));
@@ -293,6 +303,20 @@ pub fn run_world(sc: &Value, extra: Option<(usize, Value)>, log: bool) -> WorldO
         check_map(&engine, &map, n, &mut o, log);
         for (id, v) in &map {
             o.final_map.insert(u64::from_be_bytes(id.hash[..8].try_into().unwrap()), *v);
+        }
+        // recomputing with no report in between must not move any score (beyond the engine's precision)
+        let again = engine.compute_global_trust().await;
+        if again.len() != map.len() {
+            o.malformed.push(("C10.recompute.moves_scores".into(), format!("node set {} -> {} with no report in between", map.len(), again.len())));
+        } else {
+            for (id, v) in &map {
+                let w = again.get(id).copied().unwrap_or(f64::NAN);
+                if !((v - w).abs() <= 1e-3 + 0.01 * v.abs().max(w.abs())) {
+                    let i = u64::from_be_bytes(id.hash[..8].try_into().unwrap());
+                    o.malformed.push(("C10.recompute.moves_scores".into(), format!("node {i}: {v} -> {w} on an immediate second computation with no report in between ({} nodes)", map.len())));
+                    break;
+                }
+            }
         }
     });
     drop(rt);
@@ -349,6 +373,22 @@ fn execute(sc: &Value) -> RunReport {
             if !(d <= 1e-3 + 0.01 * v.abs().max(w.abs())) {
                 worst = worst.max(d);
                 ctx.violate("C10.twin.differs", "score", format!("node {k}: {v} vs {w} for identical histories"));
+            }
+        }
+    }
+    // history-only twin: same reports in the same order, no intermediate recomputation
+    if sc["single"].as_bool() == Some(true) {
+        let h = run_world_opt(sc, None, false, true);
+        ctx.probe("history_only_twin");
+        if h.final_map.len() != a.final_map.len() {
+            ctx.violate("C10.history.scores_depend_on_recomputations", "node_set", format!("{} vs {} nodes", a.final_map.len(), h.final_map.len()));
+        } else {
+            for (k, v) in &a.final_map {
+                let w = h.final_map.get(k).copied().unwrap_or(f64::NAN);
+                if !((v - w).abs() <= 1e-3 + 0.01 * v.abs().max(w.abs())) {
+                    ctx.violate("C10.history.scores_depend_on_recomputations", if a.max_nodes > 100 { "over_100_nodes" } else { "score" }, format!("node {k}: {v} after {} computations vs {w} when the same reports are followed by one computation ({} nodes)", a.computes, a.max_nodes));
+                    break;
+                }
             }
         }
     }
